@@ -410,6 +410,10 @@ func checkC17(c *Ctx) Meta {
 
 	// ---- ROUTE
 	checkRouting(c)
+	c.Rule("C17-CTX", "a function that is handed a context passes it on to every context-taking call (not a longer-lived field context), so that stopping the caller releases the call", 30)
+	checkCtxPassThrough(c, fns)
+	c.Rule("C17-OWN", "every frame handed to the receive queue owns its buffer (allocated afresh per frame): reports are delivered unmodified", 1)
+	checkFrameOwnership(c)
 
 	return Meta{
 		Explanation: "Decides the no-panic / prompt-return structure of the cluster layer and two routing bindings: CAS-guarded stop protocol of every component, wait-group discipline of every counted goroutine, close/send discipline of every channel field, a cancellation arm on every blocking operation of a waited goroutine, no blocking send under the task lock, AddTask/RemoveTask pairing, and provenance of the channel a report is sent on.",
@@ -709,4 +713,145 @@ func checkRouting(c *Ctx) {
 		}
 	}
 	_ = token.ADD
+}
+
+// checkCtxPassThrough: a function that is handed a context passes that context (or one derived from
+// it) to every context-taking call it makes — not a longer-lived context held in a struct field.
+// Otherwise cancelling the caller (stopping a collector, dropping a connection) does not release
+// the blocking call and stop is not prompt.
+func checkCtxPassThrough(c *Ctx, fns []*ssa.Function) {
+	rule := "C17-CTX"
+	isCtx := func(t types.Type) bool { return t != nil && t.String() == "context.Context" }
+	for _, fn := range fns {
+		root := outermost(fn)
+		var ctxParam *ssa.Parameter
+		for _, p := range root.Params {
+			if isCtx(p.Type()) {
+				ctxParam = p
+				break
+			}
+		}
+		if ctxParam == nil {
+			continue
+		}
+		ord := 0
+		allInstrs(fn, func(in ssa.Instruction) {
+			ci, ok := in.(ssa.CallInstruction)
+			if !ok {
+				return
+			}
+			if _, isGo := in.(*ssa.Go); isGo {
+				return
+			}
+			for _, a := range ci.Common().Args {
+				if !isCtx(a.Type()) {
+					continue
+				}
+				ord++
+				key := fmt.Sprintf("%s:ctx-arg#%d", FuncName(fn), ord)
+				sl := backSlice(a)
+				if sl.has(ctxParam) {
+					c.OK(rule, key, c.Pos(in.Pos()), "passes its own context parameter")
+					continue
+				}
+				// a field context instead of the parameter
+				fromField := false
+				for v := range sl.vals {
+					if _, f, _, ok := fieldOfAddr(v); ok && strings.Contains(strings.ToLower(f), "ctx") {
+						fromField = true
+					}
+				}
+				if fromField {
+					c.Bad(rule, key, c.Pos(in.Pos()), "the call is bounded by a context held in a struct field although the function was handed a context by its caller: cancelling the caller (collector stop, connection loss) does not release this call, so stopping does not return promptly and later reports queue behind it")
+				} else {
+					c.OK(rule, key, c.Pos(in.Pos()), "context not taken from a longer-lived field")
+				}
+			}
+		})
+	}
+}
+
+// checkFrameOwnership: every frame handed to the receive queue owns its buffer: the slice sent is
+// allocated afresh between two consecutive sends (no reuse of the previous frame's backing array).
+func checkFrameOwnership(c *Ctx) {
+	rule := "C17-OWN"
+	f := c.MustFn(rule, "fractal/connection", "(*Conn).receiveRoutine")
+	if f == nil {
+		return
+	}
+	key := "receiveRoutine:frame-buffer-not-reused"
+	n := 0
+	bad := ""
+	check := func(in ssa.Instruction, ch, val ssa.Value) {
+		if !strings.HasSuffix(chanOrigin(f, ch), ".recvCh") {
+			return
+		}
+		n++
+		var makes []*ssa.MakeSlice
+		other := false
+		seen := map[ssa.Value]bool{}
+		var rec func(v ssa.Value)
+		rec = func(v ssa.Value) {
+			if seen[v] {
+				return
+			}
+			seen[v] = true
+			switch x := v.(type) {
+			case *ssa.MakeSlice:
+				makes = append(makes, x)
+			case *ssa.Slice:
+				rec(x.X)
+			case *ssa.Phi:
+				for _, e := range x.Edges {
+					rec(e)
+				}
+			case *ssa.UnOp:
+				valueOrigins(f, x, func(r ssa.Value) {
+					if r != ssa.Value(x) {
+						rec(r)
+					} else {
+						other = true
+					}
+				})
+			default:
+				other = true
+			}
+		}
+		rec(val)
+		if other || len(makes) == 0 {
+			bad = "the frame handed to the receive queue is not a freshly made buffer"
+			return
+		}
+		// from this send round to the next the allocation must be passed again
+		again := reach(f, in, nil, func(i2 ssa.Instruction) bool {
+			for _, m := range makes {
+				if i2 == ssa.Instruction(m) {
+					return true
+				}
+			}
+			return false
+		})(in)
+		if again || len(makes) > 1 {
+			bad = "the buffer of a frame already handed to the receive queue can be reused for the next frame: a queued report is overwritten before it is decoded (reports delivered modified or lost)"
+		}
+	}
+	allInstrs(f, func(in ssa.Instruction) {
+		switch x := in.(type) {
+		case *ssa.Send:
+			check(in, x.Chan, x.X)
+		case *ssa.Select:
+			for _, st := range x.States {
+				if st.Dir == types.SendOnly {
+					check(in, st.Chan, st.Send)
+				}
+			}
+		}
+	})
+	if n == 0 {
+		c.Bad(rule, key, c.Pos(f.Pos()), "reason=anchor-missing: no send on recvCh")
+	} else if bad != "" {
+		c.Bad(rule, key, c.Pos(f.Pos()), bad)
+	} else {
+		c.OK(rule, key, c.Pos(f.Pos()), "the slice sent on recvCh is made afresh in every round")
+	}
 }
